@@ -1818,7 +1818,8 @@ class SpaceUpdater(SharedSpaceOperations):
             if conflict:
                 raise NameError("name conflict: %s" % conflict)
 
-        affected = [node] + [v for _, v in nx.edge_dfs(self._graph, node)]
+        # The space and its sub spaces, bases first
+        affected = list(self._graph.ordered_subs(node))
         for n in affected:
             self._instructions.append(
                 Instruction(self._update_derived_space, (n,)))
